@@ -234,6 +234,26 @@ def r5_readonly(idx, r):
     r.require(ok, "makeParametersReadOnly:deep", mk, msg="the flag must be set on the reactor and on every descendant (deep traversal, unconditionally)")
     si = idx.method(PC, "__setitem__")
     r.require(any(dotted(c.func) == "setattr" and norm(c.args[0]) == "self" for c in iter_calls(si.node)), "setitem-through-setattr", si, msg="p[name] = v must go through setattr (the guard)")
+    # 'no value changes': the other ways a collection can be changed - deleting a parameter (it falls back to its default) and
+    # writing / deleting entries of the history table - do not pass through __setattr__ and need the same guard themselves
+    for name, f in pc.methods.items():
+        if name in ("__init__", "__setstate__", "__deepcopy__", "__getstate__"):
+            continue
+        muts = []
+        for s_ in iter_stores(f.node):
+            if s_.kind in ("subscript", "subscript-del", "subscript-aug", "mutcall") and (s_.chain or "").startswith("self._hist"):
+                muts.append(s_.stmt)
+        for c_ in iter_calls(f.node):
+            if dotted(c_.func) in ("delattr", "object.__delattr__") and c_.args and norm(c_.args[0]) == "self":
+                muts.append(c_)
+        if not muts:
+            continue
+        flg = Flow(f.node, ev).run()
+        for mnode in muts:
+            sb = flg.state_before(mnode) or {}
+            r.require(sb.get("guard", (0, 0))[0] >= 1, f"{name}:guarded:{norm(mnode)[:40]}", f, node=mnode,
+                      msg=f"`{norm(mnode)[:60]}` in ParameterCollection.{name} changes the collection without consulting readOnly: on a read-only reactor "
+                          "`del p[name]` resets the value to its default and `p[(name, step)] = v` rewrites the history")
 
 
 # state that StructuredGrid.backUp saves BY REFERENCE: it may be re-bound but never mutated in place
